@@ -42,7 +42,10 @@ impl NamingHelper {
     /// assert_eq!("r#type".to_string(), NmHlp::escape_rust_keyword("type".to_string()));
     /// ```
     pub fn escape_rust_keyword(name: String) -> String {
-        if Self::is_rust_keyword(&name) {
+        if matches!(name.as_str(), "self" | "Self" | "crate" | "super") {
+            // These keywords can't be used as raw identifiers
+            format!("{name}_")
+        } else if Self::is_rust_keyword(&name) {
             format!("r#{name}")
         } else {
             name
@@ -168,10 +171,13 @@ impl NamingHelper {
                 });
         if result.starts_with(|c: char| c.is_ascii_digit()) {
             format!("_{result}")
+        } else if result == "Self" {
+            // The only keyword that starts with an uppercase letter can't be a type name
+            "Self_".to_owned()
         } else {
             result
         }
-        // Currently rust identifiers only start with a lowercase letter, thus we do not need to
+        // All other rust keywords start with a lowercase letter, thus we do not need to
         // check for rust keywords
         // if Self::is_rust_keyword(&result) {
         //     format!("r#{}", result)
